@@ -14,7 +14,9 @@ NOT_APPLICABLE = {
 _T = "sound structural necessary conditions of the property, decided exhaustively over the current source of /repo " \
      "(every rule instance listed in the evidence); not a behavioural proof. An entry point behind user-defined decorators is " \
      "analysed through its wrappers, once per way of passing the arguments (DECOR.slots / .signature / .state / .cache-key); " \
-     "monkeypatched or rebound names, class decorators and stateful decorators make the check inconclusive, never silent. "
+     "monkeypatched or rebound names, class decorators and stateful decorators make the check inconclusive, never silent. " \
+     "Every function a check analyses is also searched for silent Python / numpy traps (TRAP.*: np.all of a generator, a None-returning " \
+     "method assigned, `is` against a literal, np.max of two arrays). "
 
 CLAIMS = {
     "C01": dict(
